@@ -76,6 +76,14 @@ impl SegmentIndexWriter {
                     format!("Failed to write index to file: {}. {error}", self.file_path)
                 })
                 .map_err(|_| IggyError::CannotSaveIndexToSegment)?;
+            // tokio::fs::File completes a write in the background; wait until it reached the file.
+            self.file
+                .flush()
+                .await
+                .with_error_context(|error| {
+                    format!("Failed to flush index file: {}. {error}", self.file_path)
+                })
+                .map_err(|_| IggyError::CannotSaveIndexToSegment)?;
         }
         if self.fsync {
             let _ = self.fsync().await;
